@@ -22,7 +22,7 @@ type c18Elem struct {
 	cancelClock time.Time
 }
 
-//verif:h prop=C18 p.elems=2/3 preempt=1/2 p.maxfires=2/3 cover=delivered,cancelled,shutdown-pending,dropped-by-flag runs=30000000 timeout=280/900 steps=400000
+//verif:h prop=C18 p.elems=2/3 preempt=1/2 p.maxfires=2/3 cover=delivered,cancelled,shutdown-pending,dropped-by-flag runs=30000000 timeout=900/900 steps=400000
 func H_C18_queue() {
 	maxSize := verifrt.Choose("maxSize", 3) // 0 = unbounded, 1, 2
 	var q *Queue[int]
@@ -132,7 +132,7 @@ func H_C18_queue() {
 	}
 }
 
-//verif:h prop=C18 p.workers=1/2 preempt=1/2 p.maxfires=2/3 cover=ran,cancelled runs=30000000 timeout=280/900 steps=400000
+//verif:h prop=C18 p.workers=1/2 preempt=1/2 p.maxfires=2/3 cover=ran,cancelled runs=30000000 timeout=900/900 steps=400000
 func H_C18_executor() {
 	workers := 1 + verifrt.Choose("workers", verifrt.Param("workers", 1))
 	ex := NewExecutor(workers)
@@ -181,7 +181,7 @@ func H_C18_executor() {
 // H_C18_executor2: two workers, two tasks that are due at once, Shutdown with / without IgnorePendingTimeouts: every
 // task runs exactly once and Shutdown returns (a worker left parked in Poll ends in the deadlock detector).
 //
-//verif:h prop=C18 preempt=1/2 p.maxfires=1/2 cover=ran runs=30000000 timeout=280/900 steps=400000
+//verif:h prop=C18 preempt=1/2 p.maxfires=1/2 cover=ran runs=30000000 timeout=900/900 steps=400000
 func H_C18_executor2() {
 	ex := NewExecutor(2)
 	var ran [2]atomic.Int32
@@ -206,7 +206,7 @@ func H_C18_executor2() {
 // H_C18_taskexecutor: at most one pending task per identifier, re-scheduling replaces the pending task (also
 // while the callback of the previous one is running), Cancel(id) is true exactly when it prevented a run.
 //
-//verif:h prop=C18 preempt=1/2 p.maxfires=2/3 cover=replaced,cancel-true,cancel-false,resched-in-callback runs=30000000 timeout=280/900 steps=400000
+//verif:h prop=C18 preempt=1/2 p.maxfires=2/3 cover=replaced,cancel-true,cancel-false,resched-in-callback runs=30000000 timeout=900/900 steps=400000
 func H_C18_taskexecutor() {
 	te := NewTaskExecutor[int](1)
 	var ran [4]atomic.Int32
